@@ -320,7 +320,9 @@ def run(ctx):
     run.inst("C08.K2", "sibling-compare", okidx and okval, whyc + " (must be current[i+j] vs cell + j*get_stride(resolution(cell)), j = 1 + k)", w)
     if kind == "loop":
         # mismatch clears the flag and leaves the loop; no other early exit
-        early = [(x, s_) for x, s_ in vl.exits if x != vl.item_switch and ft.blocks[s_]["term"]["k"] != "unreachable"]
+        # (a way out that can only end in a panic - a failed debug_assert! - is no way to continue with a wrong flag)
+        rets_ = set(ft.return_blocks())
+        early = [(x, s_) for x, s_ in vl.exits if x != vl.item_switch and ft.blocks[s_]["term"]["k"] != "unreachable" and (rets_ & cfg.reachable_from(s_))]
         false_blocks = {p_ for p_, v in falses}
 
         def passes_false(x, s_):
